@@ -150,6 +150,7 @@ impl Cache {
         if save {
             // update process when updating the task
             let collection = self.store.procs();
+            let _row = p.row_lock();
             let mut proc = collection.find(&task.pid)?;
             proc.end_time = p.end_time();
             proc.state = p.state().into();
@@ -157,6 +158,7 @@ impl Cache {
             proc.env = p.env().to_string();
 
             collection.update(&proc)?;
+            drop(_row);
             self.store.upsert_task(task)?;
         }
 
